@@ -7,6 +7,11 @@ VERIF = os.path.dirname(os.path.dirname(os.path.abspath(__file__)))
 
 # id -> (level, technique, level text, level note, design ref)
 CLAIMED = {
+    "C24": ("exploration",
+            "deterministic simulation: concurrent at/remove/interface histories from local tasks plus remote calls and introspection from a second real connection; brute-force linearizability check against a set-of-registrations model",
+            "Local tasks mutate the object tree over 5 nested paths x 3 interface types while a real client connection calls and introspects; every result (booleans, InterfaceNotFound, per-registration tokens, UnknownObject/UnknownInterface, introspected interface sets, mandatory child nodes) must admit a linearization (operations stamped with the global scheduler step). Thorough also enumerates all sequential histories of <= 3 mutating operations followed by a full sweep of lookups.",
+            "Histories are short (<= 14 operations) to keep the checker exact; the destroyed flag, the UnknownObject/UnknownInterface distinction and extra empty child nodes are not judged.",
+            "DESIGN.md §3 C24"),
     "C26": ("exploration",
             "deterministic simulation: seeded call mixes (valid, wrong path/interface/member/arguments, no-reply) in flight against the real object server and macro-generated handlers; replies decoded independently and compared with a table model",
             "A raw peer keeps several calls in flight against the corpus interface registered at two paths (sync/async, &self/&mut self, fallible and custom-error handlers, handlers sleeping on the simulated clock). The handler log must equal exactly the matching calls, and each call must get exactly one reply with the right serial, signature and value or the right standard error.",
